@@ -110,7 +110,20 @@ func VerifC11Create(v *verifrt.T) {
 	ttl := v.I32("ttl")
 	conn, _ := hconn(e.svc, 0)
 	t0 := time.Now().Unix()
-	resp, ok := c11request(v, e, conn, keygen.Request{Key: pname, Channel: channel, Type: typ, TTL: ttl})
+	var resp *keygen.Response
+	var ok bool
+	if v.Bool("direct") {
+		// the way the HTTP key-generation page mints: CreateKey called directly with the
+		// presented key, the access mask and the expiry (Request.expires transcribed)
+		expires := time.Unix(0, 0)
+		if ttl != 0 {
+			expires = time.Now().Add(time.Duration(ttl) * time.Second).UTC()
+		}
+		_, kerr := e.svc.keygen.CreateKey(pname, channel, wantAccess, expires)
+		resp, ok = &keygen.Response{Status: 200}, kerr == nil
+	} else {
+		resp, ok = c11request(v, e, conn, keygen.Request{Key: pname, Channel: channel, Type: typ, TTL: ttl})
+	}
 	t1 := time.Now().Unix()
 	v.Reach("create-requested")
 	pat := int64(pexp) + 1262304000
